@@ -98,7 +98,7 @@ func Validate(body *hclsyntax.Body, e *Eff, unknown bool, inDyn bool, extent hcl
 			if bs.MaxItems != 0 && found[name] > bs.MaxItems {
 				add("error", "too-many-blocks", name, extent)
 			}
-			if bs.MinItems != 0 && found[name] < bs.MinItems && !(e.DynAncestor && dyn[name] > 0) {
+			if bs.MinItems != 0 && found[name] < bs.MinItems && !(e.MergedDyn && dyn[name] > 0) {
 				add("error", "too-few-blocks", name, extent)
 			}
 		}
